@@ -1,4 +1,5 @@
 import Model.Paging
+import Model.PagingHist
 import Driver.Util
 namespace Driver.C15
 open Util Paging
@@ -96,6 +97,266 @@ def sessAnswer (ver consumer pf ps kind first script : String) : String :=
     s!"rows={rows} err={showFail o.err} reqs={showReqs 1 reqs}"
   | _, _, _ => "bad-op"
 
+
+/-! ## `hist` op (one Query object, a history of setters / Iter() / Scan / cancel; keyed node):
+    `hist v<n>[n<nodes>] <q|x|xs> <consumer> <key>=<script>|... <steps>` — see harness/cmd/c15/hist.go -/
+
+/-- the options that every request of a snapshot carries verbatim, as the node decodes them -/
+structure HAttr where
+  key : Nat := 0
+  cons : Nat := 1
+  serial : Nat := 0
+  ts : Option Nat := none
+  payload : Nat := 0
+  trace : Bool := false
+  obs : Bool := false
+
+/-- `k..c..s..` | `t..p..r..` | observer | key -/
+def attrStr (kindQ : Bool) (ver : Nat) (a : HAttr) : String :=
+  let k := if kindQ then "k-" else s!"k{a.key}"
+  let sr := if a.serial == 0 then "-" else toString a.serial
+  let t := if ver < 3 then "-" else match a.ts with | none => "*" | some 0 => "-" | some n => toString n
+  let p := if a.payload == 0 then "-" else "p" ++ toHex [UInt8.ofNat a.payload]
+  s!"{k}.c{a.cons}.s{sr}|t{t}.p{p}.r{if a.trace then 1 else 0}|{if a.obs then "o1" else "o0"}|{if kindQ then 0 else a.key}"
+
+def intern (tbl : List String) (s : String) : List String × Nat :=
+  match tbl.findIdx? (· == s) with
+  | some i => (tbl, i)
+  | none => (tbl ++ [s], tbl.length)
+
+def identParts (tbl : List String) (ident : Nat) : List String := (tbl.getD ident "").splitOn "|"
+
+def keyOfIdent (tbl : List String) (ident : Nat) : Nat :=
+  match identParts tbl ident with
+  | [_, _, _, k] => k.toNat?.getD 0
+  | _ => 0
+
+abbrev Scripts := List (Nat × List Reply)
+abbrev States := List (Bytes × Nat × Nat)   -- paging state ↦ (key, index of the page it asks for)
+
+def statesOf (scripts : Scripts) : States :=
+  scripts.flatMap fun (k, sc) =>
+    (List.range sc.length).filterMap fun i =>
+      match (sc[i]? : Option Reply) with
+      | some (Reply.page _ (some st)) => some (st, k, i + 1)
+      | _ => none
+
+def statesOk (sts : States) : Bool :=
+  sts.all (fun x => !x.1.isEmpty) &&
+  (List.range sts.length).all fun i => (List.range sts.length).all fun j =>
+    i == j || (sts[i]?.map (·.1)) != (sts[j]?.map (·.1))
+
+/-- the keyed node: replies to the chain that starts with (ident, state) -/
+def srvOf (scripts : Scripts) (sts : States) (tbl : List String) (ident : Nat) (st : Bytes) : List Reply :=
+  let key := keyOfIdent tbl ident
+  match scripts.lookup key with
+  | none => [.fail (.srv 0x2200)]
+  | some sc =>
+    if st.isEmpty then sc else
+    match sts.find? (fun (x : Bytes × Nat × Nat) => x.1 == st) with
+    | some (_, k, idx) => if k == key then sc.drop idx else [.fail (.srv 0x2200)]
+    | none => [.fail (.srv 0x2200)]
+
+def showHReq (sts : States) (tbl : List String) : Req → Option String
+  | .prepare => none
+  | .exec ident execute skip st ps =>
+    match identParts tbl ident with
+    | [a, b, _, k] =>
+      let name := if execute then (if skip then "Xs" else "X") else "Q"
+      let z := match ps with | none => "-" | some n => toString n
+      let pg := match st with
+        | none => "0"
+        | some s => match sts.find? (fun (x : Bytes × Nat × Nat) => x.1 == s) with
+          | some (_, k', idx) => if toString k' == k then toString idx else "?" ++ toHex s
+          | none => "?" ++ toHex s
+      some s!"{name}.{a}.z{z}.{b}@{pg}"
+    | _ => some "?"
+
+def insertStr (s : String) : List String → List String
+  | [] => [s]
+  | x :: xs => if s ≤ x then s :: x :: xs else x :: insertStr s xs
+
+def sortStrs (l : List String) : List String := l.foldr insertStr []
+
+def groupCounts : List String → List (String × Nat)
+  | [] => []
+  | x :: xs =>
+    match groupCounts xs with
+    | (y, n) :: r => if x == y then (y, n + 1) :: r else (x, 1) :: (y, n) :: r
+    | [] => [(x, 1)]
+
+def multiset (l : List String) (counts : Bool) : String :=
+  if l.isEmpty then "-" else
+  ",".intercalate ((groupCounts (sortStrs l)).map fun (s, n) => if counts then s!"{s}*{n}" else s)
+
+def ppOfQ (q : Int) (n : Nat) : Nat := (((4 - q) * (n : Int)) / 4).toNat
+
+structure HRec where
+  done : Bool := false
+  nilr : Bool := false
+  keep : Option Nat := none     -- SliceMap ended with an error: only the rows delivered before the drain remain
+
+structure HSt where
+  w : Hist.World
+  tbl : List String
+  attr : HAttr
+  recs : List HRec := []
+  specShort : Bool := false
+
+def defaultQry (kind : String) (ident : Nat) : Qry :=
+  { ident := ident, prepared := kind != "q", skipMeta := kind == "xs", pageSize := 5000, pageState := [], disableAutoPage := false }
+
+def ctxOf (s : String) : Option (Option Nat) :=
+  match s.toNat? with
+  | some 0 => some none
+  | some n => some (some n)
+  | none => none
+
+def drainN (it : Hist.It) : Nat :=
+  let pageRows : Reply → Nat
+    | .page r _ => r.length
+    | _ => 0
+  1 + it.cur.rows.length + (match it.pre with | some p => p.rows.length | none => 0) + (it.rest.map pageRows).sum
+
+def histStep (ver : Nat) (kind consumer : String) (scripts : Scripts) (sts : States) (h : HSt) (tok : String) : Option HSt :=
+  let kindQ := kind == "q"
+  let run1 (h : HSt) (s : Hist.Step) : HSt :=
+    { h with w := Hist.step (srvOf scripts sts h.tbl) ppOfQ h.w s }
+  let setAttr (h : HSt) (a : HAttr) (bind : Bool) : HSt :=
+    let (tbl, id) := intern h.tbl (attrStr kindQ ver a)
+    run1 { h with tbl := tbl, attr := a } (if bind then .bind id else .setIdent id)
+  match tok.toList with
+  | [] => none
+  | c :: rest =>
+    let arg := String.ofList rest
+    match c with
+    | 'b' => if kindQ then none else arg.toNat?.map fun k => setAttr h { h.attr with key := k } true
+    | 'z' => arg.toInt?.map fun n => run1 h (.pageSize n)
+    | 'f' => arg.toInt?.map fun n => run1 h (.prefetch n)
+    | 'c' => arg.toNat?.bind fun n => if n > 0xffff then none else some (setAttr h { h.attr with cons := n } false)
+    | 's' => arg.toNat?.bind fun n => if n > 0xffff then none else some (setAttr h { h.attr with serial := n } false)
+    | 't' => arg.toNat?.bind fun n => if n ≥ 1000000 || ver < 3 then none else some (setAttr h { h.attr with ts := some n } false)
+    | 'p' => arg.toNat?.bind fun n => if n > 255 || ver < 4 then none else some (setAttr h { h.attr with payload := n } false)
+    | 'r' => if arg == "0" || arg == "1" then some (setAttr h { h.attr with trace := arg == "1" } false) else none
+    | 'o' => if arg == "0" || arg == "1" then some (setAttr h { h.attr with obs := arg == "1" } false) else none
+    | 'y' => if arg == "-" || arg.toNat?.isSome then some h else none
+    | 'i' => if arg == "0" || arg == "1" then some (run1 h (.idem (arg == "1"))) else none
+    | 'e' =>
+      match rest.reverse with
+      | m :: ds =>
+        match (String.ofList ds.reverse).toNat? with
+        | some a =>
+          if a > 4 || ds.isEmpty || !(m == 'l' || m == 's') then none
+          else some (run1 { h with specShort := h.specShort || (m == 's' && a > 0) } (.spec a))
+        | none => none
+      | [] => none
+    | 'g' =>
+      if arg == "." then some (run1 h (.pageState []))
+      else match parseHex arg with
+        | some b => if b.isEmpty then none else some (run1 h (.pageState b))
+        | none => none
+    | 'n' => if arg == "" then some (run1 h .noSkipMeta) else none
+    | 'w' =>
+      let id := if arg.startsWith "d" then String.ofList (rest.drop 1) else arg
+      (ctxOf id).map fun c => run1 h (.withCtx c)
+    | 'x' => arg.toNat?.bind fun n => if n == 0 then none else some (run1 h (.cancel n))
+    | 'R' =>
+      arg.toNat?.bind fun k =>
+        if kindQ && k != 0 then none else
+        let a : HAttr := { key := k }
+        let (tbl, id) := intern h.tbl (attrStr kindQ ver a)
+        some (run1 { h with tbl := tbl, attr := a } (.reset (defaultQry kind id)))
+    | 'I' =>
+      if arg == "" then some { run1 h (.iter none) with recs := h.recs ++ [{}] }
+      else match ctxOf arg with
+        | some c => some { run1 h (.iter (some c)) with recs := h.recs ++ [{}] }
+        | none => none
+    | 'S' =>
+      match arg.splitOn "." with
+      | [a, b] =>
+        match a.toNat?, b.toNat?, (a.toNat?.bind fun i => h.recs[i]?) with
+        | some i, some n, some r => if r.done then none else some (run1 h (.scan i n))
+        | _, _, _ => none
+      | _ => none
+    | 'D' =>
+      match arg.toNat? with
+      | some i =>
+        match h.recs[i]?, h.w.its[i]? with
+        | some r, some it =>
+          if r.done then none else
+          let h1 := run1 h (.scan i (drainN it))
+          let failed := match h1.w.its[i]? with | some it1 => it1.cur.err.isSome | none => false
+          let r1 : HRec := if consumer == "slicemap" && failed then { done := true, nilr := true, keep := some it.out.length } else { r with done := true }
+          some { h1 with recs := h1.recs.set i r1 }
+        | _, _ => none
+      | none => none
+    | _ => none
+
+def histFold (ver : Nat) (kind consumer : String) (scripts : Scripts) (sts : States) : HSt → List String → Option HSt
+  | h, [] => some h
+  | h, t :: ts => match histStep ver kind consumer scripts sts h t with
+    | some h1 => histFold ver kind consumer scripts sts h1 ts
+    | none => none
+
+def parseKeyed (s : String) : Option Scripts :=
+  (s.splitOn "|").mapM fun ks =>
+    match ks.splitOn "=" with
+    | [k, sc] => do
+      let key ← k.toNat?
+      let script ← parseScript sc
+      if script.all (fun r => match r with | .page .. => true | .fail (.srv _) => true | _ => false) then pure (key, script) else none
+    | _ => none
+
+def histAnswer (vn kind consumer scriptsS stepsS : String) : String :=
+  let vparts := ((vn.drop 1).toString).splitOn "n"
+  let nodes := match vparts with | [_, n] => n.toNat?.getD 0 | _ => 1
+  match vparts.head?.bind (·.toNat?), parseKeyed scriptsS with
+  | some ver, some scripts =>
+    let sts := statesOf scripts
+    let keys := scripts.map (·.1)
+    if ver < 2 || ver > 5 || nodes < 1 || nodes > 8 || !(vn.startsWith "v") then "bad-op"
+    else if !(kind == "q" || kind == "x" || kind == "xs") then "bad-op"
+    else if !(consumer == "scan" || consumer == "scanner" || consumer == "mapscan" || consumer == "slicemap") then "bad-op"
+    else if !statesOk sts || keys.eraseDups.length != keys.length then "bad-op"
+    else
+    let kindQ := kind == "q"
+    let a0 : HAttr := {}
+    let (tbl, id) := intern [] (attrStr kindQ ver a0)
+    let h0 : HSt := { w := { obj := defaultQry kind id, its := [], env := { cancelled := [], execs := 0, cached := false } }, tbl := tbl, attr := a0 }
+    match histFold ver kind consumer scripts sts h0 (stepsS.splitOn ",") with
+    | none => "bad-op"
+    | some h =>
+      if h.recs.any (fun r => !r.done) then "bad-op" else
+      let its := h.w.its.zip h.recs
+      let itStrs := (List.range its.length).zip its |>.map fun (i, it, r) =>
+        let rows := match r.keep with | some k => it.out.take k | none => it.out
+        s!"it{i}={showRows rows}{if r.nilr then "!nil" else ""}/{showFail it.cur.err}"
+      let itsS := if itStrs.isEmpty then "-" else ";".intercalate itStrs
+      let reqs := h.w.its.flatMap fun it => it.reqs.filterMap (showHReq sts h.tbl)
+      let nprep := (h.w.its.flatMap (·.reqs)).countP (fun r => !r.isExec)
+      let prep := if nodes == 1 && !h.specShort then toString nprep else "*"
+      if h.specShort then s!"{itsS} reqs={multiset reqs false} prep={prep} obs=* tr=*" else
+      let obs := h.w.its.flatMap fun it =>
+        match identParts h.tbl it.snap.ident with
+        | [a, _, o, _] =>
+          if o != "o1" then [] else
+          let k := ((a.splitOn ".").headD "k?")
+          let n := it.reqs.countP Req.isExec
+          let answered := (List.range n).map fun j =>
+            match (it.script[j]? : Option Reply) with
+            | some (Reply.page r _) => s!"{k}:{r.length}:nil"
+            | some (Reply.fail f) => s!"{k}:0:{showFail (some f)}"
+            | some Reply.unprepared => s!"{k}:0:unprepared"
+            | none => s!"{k}:0:exhausted"
+          answered ++ (if it.cur.err == some Fail.ctx then [s!"{k}:0:ctx"] else [])
+        | _ => []
+      let tr := (h.w.its.map fun it =>
+        match identParts h.tbl it.snap.ident with
+        | [_, b, _, _] => if b.endsWith "r1" then it.reqs.countP Req.isExec else 0
+        | _ => 0).sum
+      s!"{itsS} reqs={multiset reqs true} prep={prep} obs={multiset obs true} tr={tr}"
+  | _, _ => "bad-op"
+
 def step (_ : Unit) (ws : List String) : Unit × String :=
   ((), match ws with
   | ["iter", consumer, pages] =>
@@ -110,6 +371,7 @@ def step (_ : Unit) (ws : List String) : Unit × String :=
   | ["ast", "paging"] => astExpect
   | ["sess", ver, consumer, pf, ps, kind, first, script] => sessAnswer ver consumer pf ps kind first script
   | ["sessx", ver, consumer, pf, ps, kind, first, script] => sessAnswer ver consumer pf ps kind first script
+  | ["hist", vn, kind, consumer, scripts, steps] => histAnswer vn kind consumer scripts steps
   | _ => "bad-op")
 
 def init : Unit := ()
